@@ -40,10 +40,11 @@ type frame struct {
 
 // Interp is a per-worker interpreter; per-path state is reset by beginPath.
 type Interp struct {
-	P   *Program
-	Ex  *Explorer
-	St  *sym.Store
-	Sol *sym.Solver
+	depthReported bool // one unbounded-recursion candidate per path
+	P             *Program
+	Ex            *Explorer
+	St            *sym.Store
+	Sol           *sym.Solver
 
 	// per path
 	trace        []int
@@ -240,6 +241,12 @@ func (in *Interp) callFunction(fn *ssa.Function, args []Value, env []Value) Valu
 	}
 	in.depth++
 	if in.depth > 400 {
+		// possibly unbounded recursion in the code under test (natively: fatal stack overflow): a candidate that counts
+		// only if the native replay of this path's model dies that way; the path itself stays inconclusive
+		if !in.depthReported {
+			in.depthReported = true
+			in.reportPanic(&goPanic{msg: "call depth exceeded at " + fn.String() + " (unbounded recursion: fatal stack overflow natively)", pos: fn.Pos()})
+		}
 		in.fail("call depth exceeded at %s", fn.String())
 	}
 	defer func() { in.depth-- }()
